@@ -152,7 +152,7 @@ Print Assumptions C17_file_acceptance.
    its declaration *)
 Theorem C17_file_full_modulo_reserved : forall es, file_quantifier es = true ->
   exists l, compile_file es = Ok (concat l)
-            /\ Forall2 (fun e cs => compile e = Ok cs /\ C17_spec e cs) es l.
+            /\ Forall2 (fun e cs => compile e = Ok cs /\ C17_spec_all e cs) es l.
 Proof. exact file_full_modulo_reserved. Qed.
 Print Assumptions C17_file_full_modulo_reserved.
 
